@@ -25,6 +25,8 @@ type RType struct {
 	Under    string   `json:"under,omitempty"` // kind c: the underlying type text
 	Doc      []string `json:"doc,omitempty"`
 	Fields   []RField `json:"fields,omitempty"`
+	Hdr      string   `json:"hdr,omitempty"`   // struct: a comment after the opening brace, on the header's line (it belongs to no declaration)
+	Above    string   `json:"above,omitempty"` // types without doc: a one-line function with a comment behind it on the line directly above
 }
 
 type rdocCase struct {
@@ -72,6 +74,9 @@ func (c *rdocCase) source(pkg string) string {
 	}
 	for _, t := range c.Types {
 		doc(t.Doc, "")
+		if t.Above != "" && len(t.Doc) == 0 {
+			fmt.Fprintf(&b, "func fn%s() {} // %s\n", t.Name, t.Above)
+		}
 		tp := ""
 		if t.Generic {
 			tp = "[P any]"
@@ -86,7 +91,11 @@ func (c *rdocCase) source(pkg string) string {
 		case "i":
 			fmt.Fprintf(&b, "type %s interface{ M() }\n\n", t.Name)
 		default:
-			fmt.Fprintf(&b, "type %s%s struct {\n", t.Name, tp)
+			if t.Hdr != "" {
+				fmt.Fprintf(&b, "type %s%s struct { // %s\n", t.Name, tp, t.Hdr)
+			} else {
+				fmt.Fprintf(&b, "type %s%s struct {\n", t.Name, tp)
+			}
 			for _, f := range t.Fields {
 				doc(f.Doc, "\t")
 				switch {
@@ -197,6 +206,7 @@ import (
 	"fmt"
 	"reflect"
 	"strings"
+	"unsafe"
 )
 
 func hx(s string) string {
@@ -213,6 +223,10 @@ func initPtrs(v reflect.Value) {
 	}
 	for i := 0; i < v.NumField(); i++ {
 		f := v.Field(i)
+		if !f.CanSet() && f.CanAddr() {
+			// a field of an unexported embedded struct: reachable by the generated methods, so it is allocated too
+			f = reflect.NewAt(f.Type(), unsafe.Pointer(f.UnsafeAddr())).Elem()
+		}
 		if f.Kind() == reflect.Ptr && f.CanSet() && f.Type().Elem().Kind() == reflect.Struct {
 			f.Set(reflect.New(f.Type().Elem()))
 			initPtrs(f.Elem())
@@ -603,6 +617,12 @@ func genRdoc(r *Rng) *rdocCase {
 		}
 		t.Kind = Pick(r, []string{"s", "s", "s", "c", "i"})
 		t.Doc = rdocDocFor(r, t.Name)
+		if r.Chance(25) {
+			t.Hdr = Pick(r, []string{"persisted as YAML", "+gengo:x", "opens"})
+		}
+		if r.Chance(25) {
+			t.Above = Pick(r, []string{"host only", "stray remark"})
+		}
 		switch t.Kind {
 		case "c":
 			t.Under = Pick(r, []string{"int", "map[string]int", "[]string", "func()", "string"})
@@ -641,6 +661,12 @@ func genRdoc(r *Rng) *rdocCase {
 				f.Doc = rdocDocFor(r, f.Name)
 				t.Fields = append(t.Fields, f)
 			}
+			if t.Hdr != "" && len(t.Fields) > 0 && r.Chance(60) {
+				t.Fields[0].Doc = nil // the stray comment stands directly above a field that has no doc of its own
+			}
+		}
+		if t.Above != "" && r.Chance(60) {
+			t.Doc = nil
 		}
 	}
 	return &rdocCase{Types: ts}
@@ -691,7 +717,7 @@ func init() {
 			Name: "packages", Quick: 480, Thorough: 3600, New: func() Case { return &rdocCase{} },
 			Gen:      func(r *Rng, i int) Case { return genRdoc(r) },
 			BatchRun: rdocBatch, ShrinkBudget: 25, MaxShrinks: 6,
-			Rule: "packages of 2–6 types: exported and unexported structs (plain, generic) with exported / unexported / inline-struct / empty-struct fields and fields embedded by value and by pointer, defined int / map / slice / func / string types, interfaces; doc comments from a menu with the name as first word, as a prefix of a longer word, alone, quotes, backslashes, %d, %v, @name, backquotes, non-ASCII, blank lines and tag lines; the real generator (120 packages per Execute), go build, and one probe program per batch calling RuntimeDoc on every exported non-interface type for (), F0…F2, f0, T0, T1 and an unknown name, every question asked three times in one process (in order, in order again, in reverse order: an answer may not depend on what was asked before); compared with the model query by query; oracle: the doc text the harness wrote, and the same answer each time",
+			Rule: "packages of 2–6 types: exported and unexported structs (plain, generic) with exported / unexported / inline-struct / empty-struct fields and fields embedded by value and by pointer, defined int / map / slice / func / string types, interfaces; comments that belong to no declaration on lines of code directly above undocumented fields and types (after a struct's opening brace, behind a one-line function); doc comments from a menu with the name as first word, as a prefix of a longer word, alone, quotes, backslashes, %d, %v, @name, backquotes, non-ASCII, blank lines and tag lines; the real generator (120 packages per Execute), go build, and one probe program per batch calling RuntimeDoc on every exported non-interface type for (), F0…F2, f0, T0, T1 and an unknown name, every question asked three times in one process (in order, in order again, in reverse order: an answer may not depend on what was asked before); compared with the model query by query; oracle: the doc text the harness wrote, and the same answer each time",
 		},
 	}})
 }
